@@ -148,6 +148,8 @@ impl Drop for Core {
 /// Dropping it is the unload.
 pub struct CtxPayload {
     pub world: Arc<World>,
+    /// plugin mode (C05): the loaded module; released (dlclose) right after the flags are set
+    pub lib: Option<libloading::Library>,
 }
 
 impl Drop for CtxPayload {
